@@ -118,13 +118,22 @@ def odd_label(x):
     return x
 
 
-def py_ctx(c):
+def reordered(c, flip):
+    """the same dictionary with its keys inserted in reverse order at every nesting level (flip) - equal as a
+    dictionary, different as a sequence of items"""
+    if not isinstance(c, dict):
+        return c
+    keys = sorted(c, reverse=bool(flip))
+    return dict((k, reordered(c[k], flip)) for k in keys)
+
+
+def py_ctx(c, flip=None):
     if c == [] or c is None:
         return {}
     c = copy.deepcopy(c)
     if c.get("scale", 0) == NONE:
         c["scale"] = None
-    return c
+    return c if flip is None else reordered(c, flip)
 
 
 def py_data(kind, d):
@@ -142,10 +151,10 @@ def py_data(kind, d):
     return d
 
 
-def py_value(kind, v):
+def py_value(kind, v, flip=None):
     d = py_data(kind, v["d"])
     if v["h"]:
-        return (d, py_ctx(v["c"]))
+        return (d, py_ctx(v["c"], flip))
     return d
 
 
@@ -185,7 +194,8 @@ def build(kind):
     if t == "Store":
         return lena.flow.StoreFilled(yield_as_a_group=kind["grp"])
     if t == "GroupBy":
-        gb = lena.flow.GroupBy() if kind["by"] == "all" else lena.flow.GroupBy(kind["by"])
+        gb = lena.flow.GroupBy() if kind["by"] == "all" else \
+            lena.flow.GroupBy(("a", "count") if kind["by"] == "ac" else kind["by"])
         return DeprecatedGroupBy(gb) if kind.get("opt") == "dep" else gb
     if t == "Hist":
         var, edges, init = kind["var"], list(kind["edges"]), copy.deepcopy(kind["init"])
@@ -305,7 +315,7 @@ def run_history(kind, ops, el=None):
     for idx, o in enumerate(ops):
         if o["op"] == "f":
             try:
-                el.fill(py_value(kind, o["x"]))
+                el.fill(py_value(kind, o["x"], flip=idx % 2))      # the key order alternates from fill to fill
             except Exception as exc:   # noqa
                 raise Abort("fill:raised:" + exc_name(exc), idx)
         elif o["op"] == "c":
@@ -682,9 +692,17 @@ def rand_ctx(rnd, kind):
     t = kind["t"]
     if kind.get("_component") and t not in ("Store", "GroupBy", "Count"):
         return None          # numeric components of a vector are bare numbers
-    if rnd.random() < 0.35 and not (t == "GroupBy" and kind["by"] == "a"):
+    if rnd.random() < 0.35 and not (t == "GroupBy" and kind["by"] in ("a", "ac")):
         return None          # a bare value
     c = {}
+    if t == "GroupBy" and kind["by"] == "ac":
+        # few different selected contexts, so that equal ones (of different key order) meet in one group
+        c["a"] = rnd.randint(0, 1)
+        if rnd.random() < 0.7:
+            c["count"] = rnd.randint(0, 1)
+        if rnd.random() < 0.3:
+            c["b"] = rnd.randint(-5, 5)
+        return shuffled(rnd, c)
     if rnd.random() < 0.6 or (t == "GroupBy" and kind["by"] == "a"):
         c["a"] = rnd.randint(0, 2)
     if rnd.random() < 0.3:
@@ -695,7 +713,16 @@ def rand_ctx(rnd, kind):
         c["n"] = {"b": rnd.randint(0, 3)}
     if t == "Graph" and rnd.random() < 0.4:
         c["scale"] = rnd.choice([2, 2, 2, 3])
-    return c
+    return shuffled(rnd, c)
+
+
+def shuffled(rnd, c):
+    """the same dictionary with a random insertion order of its keys, at every nesting level"""
+    if not isinstance(c, dict):
+        return c
+    keys = list(c)
+    rnd.shuffle(keys)
+    return dict((k, shuffled(rnd, c[k])) for k in keys)
 
 
 def rand_float(rnd, prev):
@@ -714,7 +741,8 @@ def rand_kind(rnd):
                     "Store", "GroupBy",
                     "Hist", "Hist", "Hist2", "Graph"])
     if t == "Count":
-        return {"t": "Count", "name": rnd.choice(["count", "n2"]), "start": rnd.choice([0, 0, 3, 10])}
+        return {"t": "Count", "name": rnd.choice(["count", "n2", "n.b", "count.sel", "a", "events.selected"]),
+                "start": rnd.choice([0, 0, 3, 10])}
     if t == "Sum":
         return {"t": "Sum", "start": rnd.choice([0, 0, 7, -4])}
     if t == "DSum":
@@ -741,7 +769,7 @@ def rand_kind(rnd):
     if t == "Store":
         return {"t": "Store", "grp": rnd.random() < 0.5}
     if t == "GroupBy":
-        return {"t": "GroupBy", "by": rnd.choice(["all", "a"])}
+        return {"t": "GroupBy", "by": rnd.choice(["all", "a", "ac", "ac"])}
     if t == "Hist":
         n = rnd.randint(1, 5)
         edges = sorted(rnd.sample(range(-6, 9), n + 1))
